@@ -842,7 +842,10 @@ class Tr:
             if n == 'tuple' and len(args) == 1 and not kw:
                 return self.E(args[0])
             if n == 'int' and len(args) == 1 and isinstance(kw.get('base'), ast.Constant) and kw['base'].value == 16:
-                return f'(← Py.hexDigit {self.E(args[0])[0]})', 'int'
+                c0, k0 = self.E(args[0])
+                if k0 == 'str':
+                    return f'(← Py.intOfHex {c0})', 'int'
+                return f'(← Py.hexDigit {c0})', 'int'
             if n == 'product' and len(args) == 1 and set(kw) == {'repeat'} and isinstance(kw['repeat'], ast.Constant) and kw['repeat'].value == 2:
                 c0 = self.E(args[0])[0]
                 return f'(Py.product {c0} {c0})', 'list'
